@@ -290,7 +290,7 @@ class Routes:
                     self.cmp("FixedArray.IndexAsScalar(-1, quantity)", fa.IndexAsScalar(-1, ObtainQuantity(v, c)).value, [rr[-1]], case, au, av, [vals[-1]])
                     # an array backed by integers takes a fractional amount as it is (nothing is squeezed into the container's dtype)
                     for dt_ in (np.int64, np.int32):
-                        fi = FixedArray(len(vals), c, np.array([1, 2, 3, 4, 5, 6][: len(vals)], dtype=dt_), u)
+                        fi = FixedArray(len(vals), c, np.arange(1, len(vals) + 1, dtype=dt_), u)
                         ti = fi.ChangingIndex(0, Scalar(c, 2.5, v), use_value_unit=False)
                         self.cmp("FixedArray[%s].ChangingIndex(scalar, keep unit)[i]" % dt_.__name__, ti.values[0], [db.Convert(qt, v, u, 2.5)], case, av, au, [2.5])
                         tj = fi.ChangingIndex(1, 0.75)
